@@ -450,7 +450,10 @@ def decode_phase(call):
         return (block, tuple(hap_alleles))
     if phased and gt is not None and None not in gt and len(set(gt)) > 1:
         ps = call.get("PS")
-        block = int(ps) if ps not in (None, ".") else 0
+        try:
+            block = int(ps) if ps not in (None, ".") else 0
+        except ValueError:
+            block = ps  # not an integer (e.g. written as a float): kept as text, equal to no position
         return (block, tuple(gt))
     return None
 
